@@ -291,6 +291,23 @@ fn name_case(idx: u64) -> (String, String) {
     (frame.replace('#', w), format!("`{w}` as {what}"))
 }
 
+/// numbers of validation diagnostics placed in front of one recovered syntax error
+const MANY: &[usize] = &[1, 20, 63, 64, 99, 100, 101, 127, 128, 255, 256, 300];
+
+fn many_case(k: usize) -> (String, String) {
+    let n = MANY[k / 3];
+    let mut t = String::from("package p;\n");
+    for i in 0..n {
+        t.push_str(&format!("import u.I{i};\n"));
+    }
+    match k % 3 {
+        0 => t.push_str("interface I {\n  void f();\n  int broken;\n  void g();\n}\n"),
+        1 => t.push_str("parcelable P {\n  int x;\n  void ;\n}\n"),
+        _ => t.push_str("enum E {\n  A,\n  = 1,\n  B\n}\n"),
+    }
+    (t, format!("{n} unresolved imports followed by an item with one recovered syntax error"))
+}
+
 const LEXICAL: &[&str] = &[
     "interfaces", "in", "int", "inout2", "1f", "1.", ".5", "--1", "\"abc", "/* x", "/*/", "//", "// x", "\u{e9}t\u{e9}", "a\u{e9}", "x\u{0301}",
     "\u{65e5}\u{672c}", "1.5.2", "+", "+1", "-", "-.5f", "1e5", "0x10", "'a'", "\"a\\\"b\"", "\"a\nb\"", "@", "@1", "@a.b", "true1", "_", "__", "a-b",
@@ -357,7 +374,7 @@ impl Prop for C03 {
     }
     fn enum_count(&self, tier: Tier) -> u64 {
         let l = if tier == Tier::Quick { 2 } else { 3 };
-        FRAMES.len() as u64 * slot_seqs(l) + (NAME_FRAMES.len() * name_words().len()) as u64 + (LEXICAL.len() * 2) as u64
+        FRAMES.len() as u64 * slot_seqs(l) + (NAME_FRAMES.len() * name_words().len()) as u64 + (LEXICAL.len() * 2) as u64 + MANY.len() as u64 * 3
     }
     fn enum_case(&self, env: &Env, idx: u64, st: &mut Stats) -> Result<(), Fail> {
         let l = if env.tier == Tier::Quick { 2 } else { 3 };
@@ -369,6 +386,9 @@ impl Prop for C03 {
         } else if idx < n_slots + n_names {
             let (t, w) = name_case(idx - n_slots);
             (t, w, "name-slot")
+        } else if idx >= n_slots + n_names + (LEXICAL.len() * 2) as u64 {
+            let (t, w) = many_case((idx - n_slots - n_names - (LEXICAL.len() * 2) as u64) as usize);
+            (t, w, "many-diagnostics")
         } else {
             let k = (idx - n_slots - n_names) as usize;
             let s = LEXICAL[k / 2];
@@ -384,8 +404,13 @@ impl Prop for C03 {
     fn random(&self, _env: &Env, bytes: &[u8], st: &mut Stats) -> Result<(), Fail> {
         let mut s = Src::new(bytes);
         let lc = LayoutCfg::default();
-        let cfg = GenCfg::default();
-        let fam = s.weighted(&[10, 2, 3, 2, 3]);
+        // overflowing transact codes are in: the verdict comparison skips them, but "no tree =>
+        // an Error" and "validation keeps syntax diagnostics" still apply
+        let cfg = GenCfg {
+            allow_overflow_code: true,
+            ..GenCfg::default()
+        };
+        let fam = s.weighted(&[10, 2, 3, 2, 3, 1]);
         let (text, family) = match fam {
             0 => {
                 let m = gen::file(&mut s, &cfg);
@@ -414,6 +439,12 @@ impl Prop for C03 {
                 // well-formed document, unmodified
                 let d = crate::doccase::gen_doc(&mut s, &cfg, &lc)?;
                 (d.laid.text, "well-formed")
+            }
+            5 => {
+                // byte order mark / stray characters in front of a well-formed document
+                let d = crate::doccase::gen_doc(&mut s, &cfg, &lc)?;
+                let pre = *s.pick(&["\u{FEFF}", "\u{FEFF} ", "\u{FEFF}\n", "\u{200B}", "\u{FFFE}", "\u{FEFF}\u{FEFF}"]);
+                (format!("{pre}{}", d.laid.text), "bom-prefixed")
             }
             _ => {
                 // random sentence derived from the transcribed grammar itself (independent of the
